@@ -56,6 +56,8 @@ PREREQUISITES = {
          VALID_ACCEPTED),
         ("C10", "the copy handed to a recipient is made for the recipient's negotiated header version (on version 0 a suppressed "
                 "burst delivers nothing at all)", sel("C10.R1")),
+        ("C05", "the hopping parameters in force are the ones the peer sent: the control socket reads a SETFH of any legal length "
+                "completely", sel("C05.R6", file=".py")),
     ],
     "C03": [
         ("C02", "'during the clock tick whose frame number equals FN': every clock tick has to reach every transceiver's "
@@ -76,9 +78,10 @@ PREREQUISITES = {
         ("C01", "C04 decides gen_msg() / parse_msg() against the layout one call at a time; that every call works on the message's "
                 "own, current state (no stale memo of a version dependent length, no buffer shared between encodings, burst "
                 "cleared for a header-only PDU, burst length taken from the datagram) is decided by C01's rules",
-         sel("C01.R5", "C01.R6", "C01.R7")),
+         sel("C01.R4", "C01.R5", "C01.R6", "C01.R7")),
         ("C10", "'every version-0 burst the toolkit sends towards L1': the version and the legacy padding of the datagram that "
                 "leaves the socket are chosen on the forwarding path", sel("C10.R1")),
+        ("C12", "... and the socket layer hands over exactly the encoded octets", sel("C12.R5", file="udp_link.py")),
     ],
     "C05": [
         ("C12", "POWERON / POWEROFF status and side effects; RXTUNE / TXTUNE values stay in force until the next RXTUNE / TXTUNE",
